@@ -223,4 +223,27 @@ theorem allAdmitted_true (classes : List Cls) (hn : ∀ c ∈ classes, NodupKeys
   simp only [allAdmitted, h1, Option.map_some, Option.some.injEq, List.all_eq_true]
   exact h2
 
+theorem mapM_option_mem {α β : Type} (f : α → Option β) : ∀ (xs : List α) (rs : List β),
+    xs.mapM f = some rs → ∀ r ∈ rs, ∃ x ∈ xs, f x = some r := by
+  intro xs
+  induction xs with
+  | nil => intro rs h r hr; simp at h; subst h; simp at hr
+  | cons x xs ih =>
+    intro rs h r hr
+    simp only [List.mapM_cons] at h
+    cases hx : f x with
+    | none => simp [hx] at h
+    | some b =>
+      cases hxs : xs.mapM f with
+      | none => simp [hx, hxs] at h
+      | some bs =>
+        simp [hx, hxs] at h
+        subst h
+        simp only [List.mem_cons] at hr
+        rcases hr with rfl | hr
+        · exact ⟨x, by simp, hx⟩
+        · obtain ⟨y, hy, hfy⟩ := ih bs hxs r hr
+          exact ⟨y, by simp [hy], hfy⟩
+
+
 end Xs.Samples
